@@ -464,12 +464,36 @@ func init() {
 							c.violation("C11", "sign-out answered with the success redirect although the stored session could not be removed", real)
 						}
 						c.count("signout:del-fault")
+						// ... also when the outage spans the whole request (the session loader's read fails as well), for
+						// every request form; once the store is back the pre-sign-out cookie must not be honoured after a "success"
+						for _, form := range []reqSpec{{Target: e.opts.ProxyPrefix + "/sign_out"}, {Target: e.opts.ProxyPrefix + "/sign_out?rd=/bye"},
+							{Method: "POST", Target: e.opts.ProxyPrefix + "/sign_out", Body: "rd=%2Fbye", Header: http.Header{"Content-Type": {"application/x-www-form-urlencoded"}}}} {
+							e.mr.FlushAll()
+							b := newBrowser()
+							if lr := e.login(b, u, "/x"); !lr.OK {
+								continue
+							}
+							form.Cookie = b.cookieHeader()
+							e.redisOutage.Store(true)
+							v, real := e.serveCase(form, nil, "signout:outage")
+							e.redisOutage.Store(false)
+							if v == nil {
+								continue
+							}
+							after := e.do(reqSpec{Target: "/app/after-outage", Cookie: b.cookieHeader()})
+							c.casen(fmt.Sprintf("c11|outage|%s|%s", form.Method, form.Target), real)
+							c.count("signout:outage")
+							if v.Status == 302 && len(after.Hits) > 0 {
+								c.violation("C11", "sign-out answered with the success redirect during a store outage; the pre-sign-out cookie is authenticated again once the store is back",
+									map[string]interface{}{"method": form.Method, "target": form.Target, "response": real, "replay_status": after.Status})
+							}
+						}
 					}
 					e.close()
 				}
 			}
 		}
-		c.close([]string{"serve:signout", "signout:replay", "signout:del-fault", "signout:parts-1", "signout:refresh-at-signout", "signout:during-refresh"})
+		c.close([]string{"serve:signout", "signout:replay", "signout:del-fault", "signout:parts-1", "signout:refresh-at-signout", "signout:during-refresh", "signout:outage"})
 	})
 
 	registerSuite("cookieattrs", func(c *suiteCtx) {
